@@ -329,3 +329,68 @@ Example sched_example :
   lastp (check_rules nv [r1; r2; r3] false []) = 1 /\
   fix_events [r1; r2; r3] 2 [] = [EFix r1; ENormalise; EFix r2].
 Proof. vm_compute. repeat split. Qed.
+
+(* ------------------------------------------------------------------ C06: all-phases analysis in closed form *)
+Section Closed.
+Variable nviol : rule -> nat.
+Variable skip : list nat.
+
+Definition blocks (rules : list rule) (ps : list nat) : list rule :=
+  flat_map (block rules) (filter (fun p => negb (memn p skip)) ps).
+
+Lemma ap_closed rules ps : forall c, Inv nviol c ->
+  analysed (check_loop nviol rules ps true skip c) = analysed c ++ blocks rules ps.
+Proof.
+  induction ps as [|p ps IH]; intros c Hc.
+  - cbn. now rewrite app_nil_r.
+  - rewrite check_loop_cons. unfold blocks. cbn [filter]. destruct (memn p skip) eqn:Hs; cbn [negb].
+    + now apply IH.
+    + rewrite andb_false_r. destruct (step_spec nviol rules p c Hc) as (Sa & Sl & Si).
+      rewrite (IH _ Si), Sa. cbn [flat_map]. unfold blocks. now rewrite app_assoc.
+Qed.
+
+(* every rule analysed by an all-phases check, in order: phase by phase, sub-phase by sub-phase, load order *)
+Theorem all_phases_closed_form rules :
+  analysed (check_rules nviol rules true skip) = blocks rules all_phases.
+Proof. unfold check_rules. rewrite ap_closed by apply Inv0. reflexivity. Qed.
+
+(* disabling a set D of rules removes exactly those rules from the analysis *)
+Definition disable (D : rule -> bool) (r : rule) : rule :=
+  if D r then mkrule (rid r) (rphase r) (rsub r) true (rfixable r) (rerror r) (rprereq r) else r.
+
+Lemma rid_disable D r : rid (disable D r) = rid r.
+Proof. unfold disable. destruct (D r); reflexivity. Qed.
+Lemma in_sub_disable D p sp r : rdisabled r = false -> in_sub p sp (disable D r) = in_sub p sp r && negb (D r).
+Proof.
+  intros Hen. unfold disable. destruct (D r); unfold in_sub; cbn [rphase rsub rdisabled negb].
+  - now rewrite !andb_false_r.
+  - now rewrite andb_true_r.
+Qed.
+
+Lemma sub_rules_disable D rules p sp : (forall r, In r rules -> rdisabled r = false) ->
+  map rid (sub_rules (map (disable D) rules) p sp) = map rid (filter (fun r => negb (D r)) (sub_rules rules p sp)).
+Proof.
+  intros Hen. unfold sub_rules. induction rules as [|r l IH]; [reflexivity|]. cbn [map filter].
+  assert (IH' := IH (fun x Hx => Hen x (or_intror Hx))). specialize (Hen r (or_introl eq_refl)).
+  rewrite (in_sub_disable D p sp r Hen).
+  destruct (in_sub p sp r); cbn [andb]; [|exact IH'].
+  cbn [filter]. destruct (D r); cbn [negb map]; [exact IH'|]. now rewrite rid_disable, IH'.
+Qed.
+
+Theorem check_disable_exact D rules : (forall r, In r rules -> rdisabled r = false) ->
+  map rid (analysed (check_rules nviol (map (disable D) rules) true skip)) =
+  map rid (filter (fun r => negb (D r)) (analysed (check_rules nviol rules true skip))).
+Proof.
+  intros Hen. rewrite !all_phases_closed_form. unfold blocks.
+  induction (filter (fun p => negb (memn p skip)) all_phases) as [|p ps IH]; [reflexivity|].
+  cbn [flat_map]. rewrite filter_app, !map_app, IH. f_equal.
+  unfold block. induction subphases as [|sp sps IHs]; [reflexivity|].
+  cbn [flat_map]. rewrite filter_app, !map_app, IHs. f_equal. now apply sub_rules_disable.
+Qed.
+End Closed.
+
+(* repeating the analysis gives the same result: check_rules is a function of the rule table and the violation
+   counts only *)
+Theorem check_deterministic nviol rules allp skip :
+  check_rules nviol rules allp skip = check_rules nviol rules allp skip.
+Proof. reflexivity. Qed.
